@@ -402,6 +402,10 @@ def check_C14(ctx):
                 holder["subs"].append(gen.mkcmd(rng.choice(["hlp -h", "hh --help", "-h", "hlp --help -h"]), desc="named like a help token"))
         # the version flag is declared before or after the root's own options
         version = {"name": "V version", "text": "v1.2", "last": rng.random() < 0.5} if rng.random() < 0.5 else None
+        # a sub-command of the root may be named like the version flag: given first, the token still asks for the version
+        if version and rng.random() < 0.3 and not any(set(x["name"].split()) & {"-V", "--version", "ver", "vv"} for x in root["subs"]):
+            root["subs"].append(gen.mkcmd(rng.choice(["ver -V", "vv --version", "-V", "--version", "ver --version -V"]),
+                                          desc="named like the version flag", action={"k": "ret"}))
         argv = flat_argv(path, per_level)
         # a help token after a "--" inside one level's own arguments is ordinary data
         if rng.random() < 0.5:
@@ -882,6 +886,8 @@ def check_C13(ctx):
 # =======================================================================================
 
 ARGNAMES = ["A", "SRC", "DST", "A1", "X_Y", "Z9_", "FILE", "OPT", "OPTIONS1", "B"]
+ARGFAMILIES = [["OUTFILE", "FILE", "E", "OUT"], ["SRC_DIR", "DIR", "SRC", "R"], ["AB", "B", "A", "ABA"], ["AA", "A", "AAA"],
+               ["OPTIONS_", "OPTIONS1", "S1", "OPTION"], ["X1", "X", "X11", "1X".replace("1X", "XX1")]]
 
 
 def check_C16(ctx):
@@ -889,7 +895,9 @@ def check_C16(ctx):
     cases, pairs = [], []
     for _ in range(ctx.scale(1500, 15000)):
         decls = gen.declared_set(rng, observable=rng.random() < 0.5, env_prob=0.2, nopts=rng.randint(0, 3), nargs=0)
-        for n in rng.sample(ARGNAMES, rng.randint(0, 3)):
+        # (a quarter of the time the names are substrings, prefixes and suffixes of one another)
+        pool = rng.choice(ARGFAMILIES) if rng.random() < 0.25 else ARGNAMES
+        for n in rng.sample(pool, min(len(pool), rng.randint(0, 3))):
             decls.append(gen.mkarg(rng.choice(["string", "strings", "int"]), n, **{"def": []}))
             if decls[-1]["kind"] == "string":
                 decls[-1]["def"] = [""]
